@@ -28,13 +28,12 @@ Round 4 (kinds e-j of seeded/C07-9..12; the one miss, C07-12, was a ONE-SHOT ITE
       values - editing one through setters, item assignment, in-place conversion or the metadata dictionary it
       hands out leaves the other's dictionary unchanged (both directions); editing a dictionary after it was
       written / after it was read changes neither object.  Recorded conventions of the pinned code that are NOT
-      asserted: a mutable collection writes its own value list into its dictionary, legend parameters share
-      their ordinal / user-data dictionaries with their dictionary form and their copies, a header keeps the
+      asserted: legend parameters share their ordinal / user-data dictionaries with their dictionary form and their copies, a header keeps the
       metadata dictionary it is handed.
   (e) sibling classes: op `twin` (mutable / immutable twins convert into each other, equal the directly built
       twin, keep the validated flag, write the same dictionary up to the class name); copy.deepcopy and pickle of
       every class; every field of LegendParameters also on LegendParametersCategorized; theorems
-      C07_twins_same_json, C07_read_as_mutable / _immutable, C07_twin_conversions.
+      C07_twins_same_dictionary / _json, C07_read_as_mutable / _immutable, C07_twin_conversions.
   (i) input shapes: numbers given as text ('plain', blank-padded / zero-padded, exponent notation) to every
       constructor that converts (Location, Color, AnalysisPeriod month/day/hour, categorized domain); hand-written
       texts of the documented formats (op `text_shape`: zero-padded, capitals, blanks incl. after the leap star,
@@ -133,7 +132,7 @@ TRUSTED_BASE = [
 ]
 ASSUMPTIONS = ['object equality is the class\'s own __eq__ where defined; ColorRange, EPW and '
                'PsychrometricChart define none and are compared through their dictionaries']
-LEVEL_TEXT = ('Machine-checked Lean 4 theorems (49) over a codec model of the serial forms: json.loads(json.dumps) '
+LEVEL_TEXT = ('Machine-checked Lean 4 theorems (50) over a codec model of the serial forms: json.loads(json.dumps) '
               'modelled as jsonRT (tuples to lists, integer keys to text); the round-trip law '
               'dec(jsonRT(enc a)) = a is proved for every well-formed DateTime, Date, Time, AnalysisPeriod '
               '(incl. duplicate and token-level text), Location, Color, standard and generic DataType, Header, '
@@ -1404,10 +1403,11 @@ def _check_shape(op, inp):
     return None
 
 
-# containers that the pinned code shares on purpose (shallow ownership; recorded, not asserted): a mutable
-# collection writes its own value list into its dictionary, legend parameters write their own ordinal /
-# user-data dictionaries; a header keeps the metadata dictionary it is handed
-_LIVE_IN_TO_DICT = ('values', 'ordinal_dictionary', 'user_data')
+# containers that the pinned code shares on purpose (shallow ownership; recorded, not asserted): legend
+# parameters write their own ordinal / user-data dictionaries; a header keeps the metadata dictionary it is handed.
+# (Since /repo 0c2fb64 a collection exports list(self._values), a copy: editing d['values'] is asserted not to
+#  reach the collection.)
+_LIVE_IN_TO_DICT = ('ordinal_dictionary', 'user_data')
 _LIVE_IN_FROM_DICT = ('metadata', 'user_data', 'ordinal_dictionary')
 
 
@@ -3532,7 +3532,7 @@ def _hist_correspondence(ctx, L, rng, n):
                 deferred = True
                 ctx.count('hist_refused_changed:deferred_to_oracle')
                 break
-            # canonical snapshot at once: to_dict hands out the object's own value list
+            # canonical snapshot at once (before 0c2fb64 to_dict handed out the object's own value list)
             real.append(canon([acc, x.to_dict()] + ([val] if (acc and o[0] == 'read') else [])))
         ctx.compared += 1
         ctx.count('op:hist_' + spec['cls'])
